@@ -47,7 +47,7 @@ Step(o) ==
   /\ l <= Len(Ops) /\ Ops[l] = o
   /\ \/ o.op = "I" /\ Integrate(o.k)
      \/ o.op = "P" /\ Predict(o.i, o.sc)
-     \/ o.op = "S" /\ SetPva(o.vdz)
+     \/ o.op = "S" /\ SetPva(o.vdz, o.how)
      \/ o.op = "G" /\ Get
   /\ ObsMatches(o.obs, rows', ret')
   /\ (cap' # o.obs.cap => PrintT(<<"CAPDRIFT", Tr.tid, l, cap', o.obs.cap>>))
